@@ -238,6 +238,13 @@ def check(ctx, rep):
         return
     rep.analysed(ws.qualname)
     sockparam = ws.params[1] if len(ws.params) > 1 else "sock"
+    ev_problems = _sniff_by_evaluation(ctx, bs, ws)
+    if ev_problems is not None:
+        # decided by evaluating wrap_socket() on scripted first bytes (helpers of the module followed)
+        peek = [x for x in ev_problems if x.startswith("peek:")]
+        iff = [x for x in ev_problems if not x.startswith("peek:")]
+        rep.add("R02f", "wrap_socket peeks one byte without consuming", not peek, ctx.where(ws), "; ".join(x[5:] for x in peek), key="R02f|peek|" + ";".join(peek)[:80])
+        rep.add("R02f", "wrap iff first byte is 0x16", not iff, ctx.where(ws), "; ".join(iff[:2]), key="R02f|iff|" + ";".join(iff)[:80])
     problems = set()
     n_recv = 0
     for call, t in eff.calls_of(ws, bs):
@@ -250,8 +257,9 @@ def check(ctx, rep):
                 problems.add(f"`{norm(call)}` does not peek exactly one byte")
     if n_recv == 0:
         problems.add("no peek at the first byte")
-    rep.add("R02f", "wrap_socket peeks one byte without consuming", not problems, ctx.where(ws), "; ".join(sorted(problems)),
-            key="R02f|peek|" + ";".join(sorted(problems)))
+    if ev_problems is None:
+        rep.add("R02f", "wrap_socket peeks one byte without consuming", not problems, ctx.where(ws), "; ".join(sorted(problems)),
+                key="R02f|peek|" + ";".join(sorted(problems)))
 
     def is_sniff_test(node, func_node) -> bool:
         """`<recv(...)> == b'\\x16'` (directly or through a local bound to the recv call)."""
@@ -302,8 +310,9 @@ def check(ctx, rep):
                 problems.add("a plaintext connection is not returned unchanged")
     if n_wrap == 0:
         problems.add("no path wraps the socket in TLS")
-    rep.add("R02f", "wrap iff first byte is 0x16", not problems, ctx.where(ws), "; ".join(sorted(problems)),
-            key="R02f|iff|" + ";".join(sorted(problems)))
+    if ev_problems is None:
+        rep.add("R02f", "wrap iff first byte is 0x16", not problems, ctx.where(ws), "; ".join(sorted(problems)),
+                key="R02f|iff|" + ";".join(sorted(problems)))
 
     # worker entry points
     servers = [c for c in prog.subclasses(bs, strict=True)]
@@ -322,7 +331,8 @@ def check(ctx, rep):
             rep.fail("R02f", f"{S.qualname}.{worker}", ctx.where(S.module, S.node),
                      "server class does not override the worker entry point: TLS is never sniffed", key=f"R02f|{S.qualname}|worker")
             continue
-        w = Walker(prog, ctx.resolver)
+        _NOIN = ("wrap_socket", "finish_request", "handle_error", "shutdown_request", "close_request", "server_bind", "__init__")
+        w = Walker(prog, ctx.resolver, inline=lambda fn, t, d: d < 3 and t.bound_cls is not None and fn.module is m.module and fn.name not in _NOIN)
         problems = set()
         n_fin = 0
         for p in w.run(m, S):
@@ -383,6 +393,89 @@ CLASSIFICATION = [
     ("host.example /docs/a.txt 0\r\n", False, "SpartanProtocol"), ("host.example /upload 12\r\n", False, "SpartanProtocol"),
     ("host.example /docs/a.txt 0\r\n", True, "SecureGopherProtocol"), ("host.example /docs/a.txt x\r\n", False, "GopherProtocol"),
 ]
+
+
+def _sniff_by_evaluation(ctx, bs, ws):
+    """wrap_socket(sock) evaluated with a socket whose first byte is scripted: the only read is recv(1, MSG_PEEK); the result
+    is the TLS-wrapped socket exactly when a context is configured and the byte is 0x16, otherwise the socket itself.
+    -> list of problems ('peek:' prefix for the read itself), or None when the walker cannot follow the code."""
+    from ..paths import Const, Walker
+
+    prog = ctx.prog
+    if len(ws.params) < 2:
+        return None
+
+    class _Sock:
+        def __repr__(self):
+            return "<the accepted socket>"
+
+    class _Ctx:
+        def __repr__(self):
+            return "<the TLS context>"
+
+    sock, tlsctx = _Sock(), _Ctx()
+    problems = []
+    decided = 0
+    for has_ctx in (True, False):
+        for first in (b"\x16", b"G", b"", b"\x17", b"\x15"):
+            holder = {}
+
+            def cv(call, target, st, _first=first):
+                w = holder["w"]
+                f = call.func
+                a = w.cur_args or []
+                kws = w.cur_kws or {}
+                if isinstance(f, ast.Attribute) and w.cur_recv is not None and w.cur_recv.kind == "const" and w.cur_recv.value is sock:
+                    if f.attr in ("recv", "recv_into", "recvfrom", "read", "recvmsg", "makefile", "readline"):
+                        n_ = st.facts.get("__reads", Const(0)).value
+                        st.facts["__reads"] = Const(n_ + 1)
+                        flags = a[1] if len(a) > 1 else kws.get("flags")
+                        size = a[0] if a else kws.get("bufsize")
+                        ok = f.attr == "recv" and size is not None and size.kind == "const" and size.value == 1 \
+                            and flags is not None and flags.kind == "const" and "MSG_PEEK" in str(flags.value)
+                        if not ok:
+                            st.facts["__badread"] = Const(norm(call)[:50])
+                        return Const(_first)
+                    return None
+                if isinstance(f, ast.Attribute) and f.attr == "wrap_socket" and w.cur_recv is not None and w.cur_recv.kind == "const" \
+                        and w.cur_recv.value is tlsctx:
+                    st.facts["__wrapped"] = Const(bool(a and a[0].kind == "const" and a[0].value is sock))
+                    return Const("<TLS socket>")
+                return None
+
+            facts = {"self.context": Const(tlsctx if has_ctx else None)}
+            w = Walker(prog, ctx.resolver, call_value=cv, assumptions=facts, sticky=set(facts), exact_loops=True, unroll=4,
+                       inline=lambda fn, t, d: d < 3 and (t.bound_cls is not None or (fn.cls is None and fn.module is ws.module)
+                                                          or (fn.cls is not None and fn.module is ws.module)))
+            holder["w"] = w
+            try:
+                paths = w.run(ws, bs, env={ws.params[1]: Const(sock)}, facts=dict(facts))
+            except Exception:
+                return None
+            outs = set()
+            for p in paths:
+                if p.kind != "return" or p.value is None or p.value.kind != "const":
+                    return None
+                bad = p.state.facts.get("__badread")
+                outs.add((p.value.value if isinstance(p.value.value, str) else ("sock" if p.value.value is sock else "?"),
+                          bad.value if bad is not None else None, p.state.facts.get("__reads", Const(0)).value,
+                          (p.state.facts.get("__wrapped") or Const(None)).value))
+            if len(outs) != 1:
+                return None
+            res, bad, reads, wrapped = next(iter(outs))
+            decided += 1
+            if bad:
+                problems.append(f"peek:`{bad}` is not recv(1, socket.MSG_PEEK): it consumes request bytes or looks at more than the first one")
+            if reads > 1:
+                problems.append("peek:the socket is read more than once before the protocol sees it")
+            want = "<TLS socket>" if (has_ctx and first == b"\x16") else "sock"
+            if res != want:
+                problems.append(f"with {'a' if has_ctx else 'no'} TLS context and first byte {first!r} the connection is "
+                                f"{'wrapped in TLS' if res == '<TLS socket>' else 'served as it is' if res == 'sock' else 'replaced by something else'} "
+                                f"(expected: {'wrapped' if want != 'sock' else 'served as it is'})")
+            if res == "<TLS socket>" and wrapped is not True:
+                problems.append("the TLS context wraps something other than the accepted socket")
+    return problems if decided else None
 
 
 def classification_obligations(ctx, rep, rule="R02h"):
